@@ -35,7 +35,7 @@ def usable(sc):
             return False
         if re.search(r"(^|[=,])/", a):
             return False
-    if sc["faults"] or sc["missing_tools"] or sc["readlink_fail"]:
+    if sc["faults"] or sc["missing_tools"] or sc["readlink_fail"] or sc.get("stdin_stays_open") or sc.get("sigchld_ignored"):
         return False
     for p in sc["plans"]:
         if p["mode"] not in ("none", "exit1_before_read", "exit1_after_all"):
@@ -60,6 +60,7 @@ def main():
         open(p, "w").write("#!%s\nimport sys\nsys.argv[0] = %r\nexec(compile(open(%r).read(), %r, 'exec'))\n" % (os.path.realpath(sys.executable), t, tool, tool))
         os.chmod(p, 0o755)
     done = agree = nfail = nusage = 0
+    axes = {"path_decoys": 0, "output_symlink": 0, "sigterm_inherited": 0, "stdin_closed": 0}
     bad = []
     idx = 0
     try:
@@ -78,11 +79,15 @@ def main():
             json.dump({"scenario": sc}, open(sfile, "w"))
             s = subprocess.run([sim, "replay", sfile, "--log", "--known", "D6"], stdout=subprocess.PIPE, text=True)
             sim_spawns, sim_fs, sim_status = [], set(), None
+            sim_links = []
             tm = {}
             for ln in s.stdout.splitlines():
                 m = re.match(r"^\[\d+\] spawn (.*) -> pid \d+", ln)
                 if m:
                     sim_spawns.append(m.group(1).split(" "))
+                m = re.match(r"^SYMLINK (\S+) -> (\S+)$", ln)
+                if m:
+                    sim_links.append((m.group(1), m.group(2)))
                 m = re.match(r"^FS:(.*)$", ln)
                 if m:
                     sim_fs = set(m.group(1).split())
@@ -101,6 +106,11 @@ def main():
             for name, units in sc["files"]:
                 os.makedirs(os.path.dirname(os.path.join(cwd, name)) or cwd, exist_ok=True)
                 open(os.path.join(cwd, name), "w").write("".join("u%d\n" % i for i in range(units)) + "complete\n")
+            for name, target in sim_links:
+                os.makedirs(os.path.dirname(os.path.join(cwd, target)), exist_ok=True)
+                open(os.path.join(cwd, target), "w").write("")
+                os.makedirs(os.path.dirname(os.path.join(cwd, name)) or cwd, exist_ok=True)
+                os.symlink(os.path.relpath(os.path.join(cwd, target), os.path.dirname(os.path.join(cwd, name)) or cwd), os.path.join(cwd, name))
             cdir = os.path.join(top, "calib")
             shutil.rmtree(cdir, ignore_errors=True)
             os.makedirs(cdir)
@@ -111,8 +121,28 @@ def main():
                     mode = "exit_before_open"
                 plan["%s:%d" % (p["stage"], p["occ"])] = {"mode": mode, "code": p.get("code") or 1}
             before = set(f for f in os.listdir("/tmp") if f.startswith("cproc-"))
-            env = {"PATH": bindir, "CALIB_DIR": cdir, "CALIB_PLAN": json.dumps(plan)}
-            rr = subprocess.run([os.path.join(bindir, "cproc")] + sc["argv"][1:], cwd=cwd, env=env, input="i0\ni1\n", stdout=subprocess.PIPE, stderr=subprocess.PIPE, text=True)
+            path = bindir
+            if sc.get("path_decoys"):
+                # an earlier PATH entry that holds a directory under the tool's name
+                dd = os.path.join(top, "decoy")
+                shutil.rmtree(dd, ignore_errors=True)
+                for t in sc["path_decoys"]:
+                    os.makedirs(os.path.join(dd, os.path.basename(t)), exist_ok=True)
+                path = dd + ":" + bindir
+            env = {"PATH": path, "CALIB_DIR": cdir, "CALIB_PLAN": json.dumps(plan)}
+
+            def pre(sc=sc):
+                import signal
+                if sc.get("sigterm_inherited") == 1:
+                    signal.signal(signal.SIGTERM, signal.SIG_IGN)
+                elif sc.get("sigterm_inherited") == 2:
+                    signal.pthread_sigmask(signal.SIG_BLOCK, {signal.SIGTERM})
+                if sc.get("stdin_closed"):
+                    os.close(0)
+            if sc.get("stdin_closed"):
+                rr = subprocess.run([os.path.join(bindir, "cproc")] + sc["argv"][1:], cwd=cwd, env=env, stdout=subprocess.PIPE, stderr=subprocess.PIPE, text=True, preexec_fn=pre)
+            else:
+                rr = subprocess.run([os.path.join(bindir, "cproc")] + sc["argv"][1:], cwd=cwd, env=env, input="i0\ni1\n", stdout=subprocess.PIPE, stderr=subprocess.PIPE, text=True, preexec_fn=pre)
             real_status = rr.returncode
             real_spawns = []
             lp = os.path.join(cdir, "log")
@@ -126,7 +156,7 @@ def main():
                 for f in files:
                     rel = os.path.relpath(os.path.join(root, f), cwd)
                     if rel not in initial:
-                        real_fs.add(rel)
+                        real_fs.add(rel + "@" if os.path.islink(os.path.join(root, f)) else rel)
             for f in left:
                 real_fs.add("<tmp>")
                 os.unlink(os.path.join("/tmp", f))
@@ -139,6 +169,8 @@ def main():
             sim_fs_n = set("<tmp>" if re.match(r"^/tmp/cproc-", f) else os.path.normpath(f) for f in sim_fs)
             failure = bool(plan)
             nfail += failure
+            for k in axes:
+                axes[k] += 1 if (sim_links if k == "output_symlink" else sc.get(k)) else 0
             nusage += real_status == 2
             ok = sim_status == real_status and sim_fs_n == real_fs and (failure or a == b)
             if ok:
@@ -148,6 +180,7 @@ def main():
     finally:
         shutil.rmtree(top, ignore_errors=True)
     print("calibration: %d race-free scenarios (%d with a failing tool, %d usage errors), simulator and real kernel agree on %d" % (done, nfail, nusage, agree))
+    print("  environments among them: %s" % ", ".join("%s %d" % kv for kv in sorted(axes.items())))
     for x in bad[:5]:
         print(json.dumps(x, indent=1)[:1500])
     return 0 if not bad else 1
